@@ -237,6 +237,17 @@ unsafe impl Sync for FixedCapacityMemoryPool {}
 impl FixedCapacityMemoryPool {
     /// Create a new fixed capacity memory pool
     pub fn new(config: FixedCapacityPoolConfig) -> Result<Self> {
+        // Blocks are laid out back to back with a stride of max_block_size, so only the first one
+        // would be aligned if the stride were not a multiple of the alignment
+        if config.alignment == 0
+            || !config.alignment.is_power_of_two()
+            || config.max_block_size % config.alignment != 0
+        {
+            return Err(ZiporaError::invalid_data(
+                "max_block_size must be a multiple of the (power-of-two) alignment",
+            ));
+        }
+
         // Generate size classes
         let size_classes = Self::generate_size_classes(config.max_block_size, config.alignment);
         let num_classes = size_classes.len();
